@@ -176,6 +176,59 @@ fn to_dyn_outlives(variant: u64) {
     assert_eq!(drops.load(Ordering::SeqCst), 1, "target dropped exactly once, with the last handle");
 }
 
+/// Borrow discipline of the Rc variant (the one whose conflicts are reported rather than waited
+/// for): a writer is refused while a reader is alive and vice versa, through the concrete handle
+/// and through a trait-object handle. If a conflicting borrow were granted, the uses below would
+/// be a `&`/`&mut` overlap or a dangling element reference, which the interpreter reports.
+fn overlap_rules() {
+    println!("CASE refs overlap_rules");
+    let r = rc_ref_cell_reference(vec![1i64, 2, 3]);
+    let r2 = r.clone();
+    {
+        let b = r.borrow();
+        let first = &b[0];
+        let w = std::panic::catch_unwind(std::panic::AssertUnwindSafe(|| {
+            let mut g = r2.borrow_mut();
+            *g = vec![9];
+        }));
+        assert!(w.is_err(), "a mutable borrow was granted while a shared borrow is alive");
+        assert_eq!(*first, 1);
+    }
+    {
+        let mut g = r.borrow_mut();
+        let rd = std::panic::catch_unwind(std::panic::AssertUnwindSafe(|| {
+            let b = r2.borrow();
+            b[0]
+        }));
+        assert!(rd.is_err(), "a shared borrow was granted while a mutable borrow is alive");
+        g.push(4);
+    }
+    {
+        let a = r.borrow();
+        let b = r2.borrow();
+        assert_eq!(a[0], b[0]);
+        assert_eq!(a.len(), 4);
+    }
+    // the same through a trait-object handle
+    let drops = Arc::new(AtomicUsize::new(0));
+    let c = rc_ref_cell_reference(Payload { v: 5, drops: drops.clone() });
+    let d: Reference<dyn Cellish> = to_dyn!(Cellish, c.clone());
+    {
+        let b = d.borrow();
+        let w = std::panic::catch_unwind(std::panic::AssertUnwindSafe(|| c.borrow_mut().write(6)));
+        assert!(w.is_err(), "a mutable borrow was granted while a shared borrow through the trait object is alive");
+        assert_eq!(b.read(), 5);
+    }
+    {
+        let b = c.borrow();
+        let w = std::panic::catch_unwind(std::panic::AssertUnwindSafe(|| d.borrow_mut().write(7)));
+        assert!(w.is_err(), "a mutable borrow through the trait object was granted while a shared borrow is alive");
+        assert_eq!(b.read(), 5);
+    }
+    d.borrow_mut().write(8);
+    assert_eq!(c.borrow().read(), 8);
+}
+
 fn statics() {
     println!("CASE refs statics");
     let a = static_reference!(i64, 5);
@@ -224,7 +277,8 @@ fn main() {
     let args: Vec<String> = std::env::args().collect();
     // refusals of to_dyn! (unimplemented!()) are expected: keep them out of the output
     std::panic::set_hook(Box::new(|info| {
-        if !info.to_string().contains("not implemented") {
+        let m = info.to_string();
+        if !m.contains("not implemented") && !m.contains("already") && !m.contains("borrow failed") {
             eprintln!("{}", info);
         }
     }));
@@ -238,7 +292,8 @@ fn main() {
     for v in 0..3 {
         to_dyn_outlives(v);
     }
+    overlap_rules();
     statics();
     threads();
-    println!("DONE cases={}", cases + 5);
+    println!("DONE cases={}", cases + 6);
 }
